@@ -117,6 +117,14 @@ func cmdFaults(args []string) int {
 				}
 			}
 		}
+		// an injected answer of the ruler other than APPROVED: nothing is signed at that position
+		if len(op.Fault.Ruler) == len(rec.Obs) {
+			for i, o := range rec.Obs {
+				if op.Fault.Ruler[i] != rules.APPROVED && o.SigLen > 0 {
+					monFail = append(monFail, fmt.Sprintf("a signature was released at position %d although the ruler's answer for it was %v, not APPROVED :: %s", i, op.Fault.Ruler[i], describeStep(rec)))
+				}
+			}
+		}
 		for _, o := range rec.Obs {
 			if (o.SigLen > 0) != (o.State == core.ResultSucceeded) {
 				monFail = append(monFail, fmt.Sprintf("signature present=%v with state %s :: %s", o.SigLen > 0, o.State, describeStep(rec)))
